@@ -100,6 +100,8 @@ pub enum Patch {
     TestWrong,
     /// syntactically invalid patch document
     Garbage,
+    /// add and remove the same field: the patched document equals the input
+    NoOp,
 }
 
 #[derive(Clone, Debug, Serialize, Deserialize, PartialEq, Eq)]
